@@ -157,23 +157,34 @@ Definition sort_entries_core (l : list entry) : list entry := fold_right insert_
 Definition sort_entries (l : list entry) : list entry :=
   if src_list_sorted then sort_entries_core l else l.
 
+(* metamodel.builtins fallback: after the collection, a reference the provider did not find is
+   looked up by name in metamodel.builtins (and must be an instance of the reference's class) *)
+
 (* the loop body of resolve_one_step over the pending references of one model:
    (history, entries appended in resolution order, delayed references, number resolved);
-   None = the provider found nothing (Unknown object) *)
-Fixpoint step (ans : provider) (pend : list cref) (h : list nat)
+   None = neither the provider nor the builtins found anything (Unknown object).
+   A reference resolved through the builtins counts as resolved but adds NO entry: the
+   collection code runs before the fallback, on a provider result only. *)
+Fixpoint step (ans : provider) (bi : cref -> bool) (pend : list cref) (h : list nat)
   : option (list nat * list entry * list cref * nat) :=
   match pend with
   | [] => Some (h, [], [], 0)
   | x :: r =>
       match ans x h with
-      | NotFound => None
+      | NotFound =>
+          if bi x then
+            match step ans bi r (cid x :: h) with
+            | Some (h', es, d, c) => Some (h', es, d, S c)
+            | None => None
+            end
+          else None
       | Postponed =>
-          match step ans r (cid x :: h) with
+          match step ans bi r (cid x :: h) with
           | Some (h', es, d, c) => Some (h', es, x :: d, c)
           | None => None
           end
       | Resolved t =>
-          match step ans r (cid x :: h) with
+          match step ans bi r (cid x :: h) with
           | Some (h', es, d, c) => Some (h', mk_entry (x, t) :: es, d, S c)
           | None => None
           end
@@ -183,16 +194,16 @@ Fixpoint step (ans : provider) (pend : list cref) (h : list nat)
 (* one model under construction: pending references and its _pos_crossref_list *)
 Notation mstate := (list cref * list entry)%type (only parsing).
 
-(* one round of the outer loop over all models, in model order *)
-Fixpoint round (ans : provider) (ms : list (list cref * list entry)) (h : list nat)
+(* one round of the outer loop over all models under construction, in model order *)
+Fixpoint round (ans : provider) (bi : cref -> bool) (ms : list (list cref * list entry)) (h : list nat)
   : option (list nat * list (list cref * list entry) * nat) :=
   match ms with
   | [] => Some (h, [], 0)
   | (pend, lst) :: r =>
-      match step ans pend h with
+      match step ans bi pend h with
       | None => None
       | Some (h1, es, d, c) =>
-          match round ans r h1 with
+          match round ans bi r h1 with
           | None => None
           | Some (h2, r', c') => Some (h2, (d, sort_entries (lst ++ es)) :: r', c + c')
           end
@@ -207,24 +218,47 @@ Inductive outcome :=
 
 Definition unresolved (ms : list (list cref * list entry)) : nat := length (concat (map fst ms)).
 
-Fixpoint loop (fuel : nat) (ans : provider) (ms : list (list cref * list entry)) (h : list nat) : outcome :=
+Fixpoint loop (fuel : nat) (ans : provider) (bi : cref -> bool) (ms : list (list cref * list entry)) (h : list nat) : outcome :=
   match fuel with
   | O => OutOfFuel
   | S f =>
-      match round ans ms h with
+      match round ans bi ms h with
       | None => UnknownObject
       | Some (h', ms', c) =>
-          if (Nat.ltb 0 (unresolved ms') && Nat.ltb 0 c)%bool then loop f ans ms' h'
+          if (Nat.ltb 0 (unresolved ms') && Nat.ltb 0 c)%bool then loop f ans bi ms' h'
           else if Nat.ltb 0 (unresolved ms') then Unresolvable (map fst ms')
           else Ok (map snd ms')
       end
   end.
 
-Definition load (ans : provider) (models : list (list cref)) : outcome :=
-  loop (S (length (concat models))) ans (map (fun rs => (rs, [])) models) [].
+Definition load (ans : provider) (bi : cref -> bool) (models : list (list cref)) : outcome :=
+  loop (S (length (concat models))) ans bi (map (fun rs => (rs, [])) models) [].
 
 (* a whole load from the parse trees of the files *)
-Definition load_trees (ans : provider) (trees : list node) : outcome := load ans (map refs_pre trees).
+Definition load_trees (ans : provider) (bi : cref -> bool) (trees : list node) : outcome :=
+  load ans bi (map refs_pre trees).
+
+(* ---------------------------------------------------------------- models of a repository *)
+(* get_included_models(model) filtered by hasattr(m, "_tx_reference_resolver"): a model that
+   was completely loaded earlier (global repository) is not under construction; it takes no
+   part in the rounds and keeps the list it got in its own load *)
+Inductive gmodel := Fresh (rs : list cref) | Done (es : list entry).
+
+Definition fresh_refs (gms : list gmodel) : list (list cref) :=
+  flat_map (fun g => match g with Fresh rs => [rs] | Done _ => [] end) gms.
+
+Fixpoint merge (gms : list gmodel) (outs : list (list entry)) : list (list entry) :=
+  match gms with
+  | [] => []
+  | Done es :: r => es :: merge r outs
+  | Fresh _ :: r => match outs with o :: outs' => o :: merge r outs' | [] => [] :: merge r [] end
+  end.
+
+Definition load_repo (ans : provider) (bi : cref -> bool) (gms : list gmodel) : outcome :=
+  match load ans bi (fresh_refs gms) with
+  | Ok outs => Ok (merge gms outs)
+  | o => o
+  end.
 
 (* the table provider of the correspondence harness: reference i answers Postponed on its first
    delay(i) calls, then its target (or "not found" when the table gives none) *)
